@@ -26,4 +26,9 @@ def joinSep (sep : Nat) : List Bytes → Bytes
 /-- keys of an association list representing a Python `dict` -/
 def dictKeys {β} (d : List (Nat × β)) : List Nat := d.map (·.1)
 
+/-- run-time test for "no duplicate keys" -/
+def nodupBool : List Nat → Bool
+  | [] => true
+  | k :: ks => !ks.contains k && nodupBool ks
+
 end PyAirtouch.Model
